@@ -119,6 +119,19 @@ pub fn run(out: &mut Out, seed: u64, tier: &str) {
             }
         }
     }
+    // pairs that almost coincide (1e-9 .. 1e-3 A apart: two records of one atom that differ in the last written digits, a dummy atom
+    // placed on a real one), alone and next to a third atom, at the origin and far from it: anything at least 1e-8 A apart and inside
+    // the threshold is a candidate bond like any other
+    for (k, sep) in [1e-9f64, 9e-9, 1.1e-8, 2e-8, 1e-7, 1e-6, 3e-5, 9e-5, 1.1e-4, 1e-3].iter().enumerate() {
+        for (zi, zj) in [(1usize, 1usize), (6, 1), (8, 8), (6, 6), (17, 1)] {
+            for off in [0.0f64, 5.0, 1.0e3, 134217728.0] {
+                if tier != "thorough" && (k + zi + off as usize) % 2 == 1 { continue; }
+                let mut p = [off, off * 0.5, -off]; let q0 = p; p[k % 3] += *sep;
+                one(out, &Mol { name: format!("near-coincident-{:e}", sep), zs: vec![zi, zj], xs: vec![q0, p] }, &mut stats);
+                one(out, &Mol { name: format!("near-coincident-{:e}+1", sep), zs: vec![zi, zj, 6], xs: vec![q0, p, [q0[0] + 1.1, q0[1], q0[2]]] }, &mut stats);
+            }
+        }
+    }
     out.stat("molecules", stats.0);
     out.stat("with_bonds", stats.1);
     out.stat("with_a_candidate_pair_left_unbonded", stats.2);
